@@ -269,6 +269,13 @@ func resolveLoad(v ssa.Value) ssa.Value {
 			if sv := lastStoreBefore(a, ld); sv != nil {
 				return sv
 			}
+			// the one store that reaches the load on every path; its value must not be one that
+			// is computed again (in a loop) between the store and the load
+			if sv := reachingStore(a, ld); sv != nil {
+				if in, isIn := sv.(ssa.Instruction); !isIn || in.Block() == nil || !inLoop(in.Block()) {
+					return sv
+				}
+			}
 		}
 	}
 	return v
@@ -460,6 +467,13 @@ func knownNonNil(v ssa.Value) bool {
 		}
 	case *ssa.ChangeType:
 		return knownNonNil(x.X)
+	case *ssa.UnOp:
+		// a package-level error value such as errCorrupt: set once, by errors.New
+		if g, ok := x.X.(*ssa.Global); ok && x.Op == token.MUL {
+			if iv := globalSingleInit(g); iv != nil {
+				return knownNonNil(iv)
+			}
+		}
 	}
 	return false
 }
@@ -913,4 +927,200 @@ func copyOrigins(a *ssa.Alloc, facts []Fact) []*ssa.Alloc {
 		return out
 	}
 	return walk(a, 0)
+}
+
+// reachingStore: the value that local variable a holds at instruction `at`, when ONE store
+// instruction is the last write to a on every path from the function's entry to `at`. The
+// variable's address may be taken only by loads, stores, read-only captures, and by closures
+// that are run by a defer (they run after `at` unless `at` is past the RunDefers). nil if the
+// variable may be written otherwise, if no store or several stores reach, or if a path
+// reaches `at` without any store.
+func reachingStore(a *ssa.Alloc, at ssa.Instruction) ssa.Value {
+	if a.Parent() != at.Parent() {
+		return nil
+	}
+	deferredOnly := func(mc *ssa.MakeClosure) bool {
+		for _, r := range *mc.Referrers() {
+			switch u := r.(type) {
+			case *ssa.Defer:
+				if u.Call.Value != ssa.Value(mc) {
+					return false
+				}
+			case *ssa.DebugRef:
+			default:
+				return false
+			}
+		}
+		return true
+	}
+	var writers []ssa.Instruction // instructions other than direct stores that may write a
+	for _, r := range *a.Referrers() {
+		switch u := r.(type) {
+		case *ssa.Store:
+			if u.Addr != ssa.Value(a) {
+				return nil // the address itself is stored somewhere
+			}
+		case *ssa.UnOp, *ssa.DebugRef:
+		case *ssa.MakeClosure:
+			for i, b := range u.Bindings {
+				if b == ssa.Value(a) && !onlyRead(u.Fn.(*ssa.Function).FreeVars[i], 0) {
+					if !deferredOnly(u) {
+						return nil
+					}
+				}
+			}
+		case *ssa.FieldAddr, *ssa.IndexAddr:
+			for _, r2 := range *u.(ssa.Value).Referrers() {
+				switch l := r2.(type) {
+				case *ssa.UnOp:
+					if l.Op != token.MUL {
+						return nil
+					}
+				case *ssa.DebugRef:
+				default:
+					return nil
+				}
+			}
+		default:
+			return nil
+		}
+	}
+	_ = writers
+	// deferred closures that write a run at RunDefers: a load after that point is not resolved
+	for i := instrIndex(at) - 1; i >= 0; i-- {
+		if _, isRD := at.Block().Instrs[i].(*ssa.RunDefers); isRD {
+			return nil
+		}
+	}
+	var found *ssa.Store
+	seen := map[*ssa.BasicBlock]bool{}
+	ok := true
+	var walk func(b *ssa.BasicBlock, from int)
+	walk = func(b *ssa.BasicBlock, from int) {
+		if !ok {
+			return
+		}
+		for i := from; i >= 0; i-- {
+			switch x := b.Instrs[i].(type) {
+			case *ssa.Store:
+				if x.Addr == ssa.Value(a) {
+					if found != nil && found != x {
+						ok = false
+					}
+					found = x
+					return
+				}
+			case *ssa.RunDefers:
+				ok = false
+				return
+			}
+		}
+		if len(b.Preds) == 0 {
+			ok = false // reaches the entry without a store: the zero value
+			return
+		}
+		for _, p := range b.Preds {
+			if !seen[p] {
+				seen[p] = true
+				walk(p, len(p.Instrs)-1)
+			}
+		}
+	}
+	walk(at.Block(), instrIndex(at)-1)
+	if !ok || found == nil {
+		return nil
+	}
+	return found.Val
+}
+
+// ---- package-level variables that are set once, by their initialiser -----------------------
+
+var pkgAllFuncsMemo = map[*ssa.Package][]*ssa.Function{}
+
+// pkgAllFuncs: every function with a body that belongs to package p (functions, methods,
+// function literals, the package initialiser).
+func pkgAllFuncs(p *ssa.Package) []*ssa.Function {
+	if fs, ok := pkgAllFuncsMemo[p]; ok {
+		return fs
+	}
+	seen := map[*ssa.Function]bool{}
+	var out []*ssa.Function
+	var add func(f *ssa.Function)
+	add = func(f *ssa.Function) {
+		if f == nil || seen[f] || f.Blocks == nil {
+			return
+		}
+		seen[f] = true
+		out = append(out, f)
+		for _, a := range f.AnonFuncs {
+			add(a)
+		}
+	}
+	for _, mem := range p.Members {
+		switch x := mem.(type) {
+		case *ssa.Function:
+			add(x)
+		case *ssa.Type:
+			for _, t := range []types.Type{x.Type(), types.NewPointer(x.Type())} {
+				ms := p.Prog.MethodSets.MethodSet(t)
+				for i := 0; i < ms.Len(); i++ {
+					if f := p.Prog.MethodValue(ms.At(i)); f != nil && f.Pkg == p {
+						add(f)
+					}
+				}
+			}
+		}
+	}
+	pkgAllFuncsMemo[p] = out
+	return out
+}
+
+var globalInitMemo = map[*ssa.Global]ssa.Value{}
+var globalInitDone = map[*ssa.Global]bool{}
+
+// globalSingleInit: the value the package-level variable g is initialised with, when that
+// store (in the package initialiser) is the only one in g's package and g's address is used
+// for nothing but loads and that store. An unexported variable cannot be written elsewhere.
+func globalSingleInit(g *ssa.Global) ssa.Value {
+	if globalInitDone[g] {
+		return globalInitMemo[g]
+	}
+	globalInitDone[g] = true
+	if g.Pkg == nil || g.Object() == nil || g.Object().Exported() {
+		return nil
+	}
+	var val ssa.Value
+	n := 0
+	for _, f := range pkgAllFuncs(g.Pkg) {
+		for _, b := range f.Blocks {
+			for _, in := range b.Instrs {
+				for _, op := range in.Operands(nil) {
+					if *op != ssa.Value(g) {
+						continue
+					}
+					switch x := in.(type) {
+					case *ssa.Store:
+						if x.Addr == ssa.Value(g) && x.Val != ssa.Value(g) && f.Name() == "init" && f.Parent() == nil {
+							n++
+							val = x.Val
+						} else {
+							return nil
+						}
+					case *ssa.UnOp:
+						if x.Op != token.MUL {
+							return nil
+						}
+					case *ssa.DebugRef:
+					default:
+						return nil
+					}
+				}
+			}
+		}
+	}
+	if n == 1 {
+		globalInitMemo[g] = val
+		return val
+	}
+	return nil
 }
